@@ -16,7 +16,7 @@ RULE = (
     "callable matchers; timeout; start tick; optional cancellation tick) and <=8 incoming messages over the server "
     "connection and two peer connections of a real Network on the in-memory TCP layer (matching one, several or no "
     "request; wrong peer; right class wrong field; optionally glued to the previous message in one TCP segment so "
-    "both are processed back-to-back; optionally the expected peer's message connection closes by EOF / reset and the peer comes back on a fresh connection 0..4 ticks later, replies then travel over the new connection), all on a 1 ms tick grid with 1 ms latency. Oracle (reference model, first "
+    "both are processed back-to-back; optionally the expected peer's message connection closes by EOF / reset and the peer comes back on a fresh connection 0..4 ticks later, replies then travel over the new connection; optionally application listeners of MessageReceivedEvent that raise (function / coroutine, at once or after zero-length waits); optionally create_peer_connection('a'|'b') calls that need the same GetPeerAddress reply and are cancelled a few ticks later), all on a 1 ms tick grid with 1 ms latency. Oracle (reference model, first "
     "match): a request completes with the first message arriving strictly after its registration and strictly "
     "before its deadline/cancellation that has the expected class, comes from the expected server/peer connection "
     "and satisfies all field matchers; otherwise TimeoutError (cancelled caller: CancelledError) and never another "
@@ -24,7 +24,7 @@ RULE = (
     "error, and a probe request registered after the history is still completed by its reply. Events that fall on "
     "the same tick as a registration/deadline/cancellation are ties: both orders are accepted. Non-trivial = two "
     "requests answered by one message, or two matching messages glued in one segment, or an arrival within one tick "
-    "of a deadline/cancellation; distinct = distinct case document."
+    "of a deadline/cancellation, or a request and a create_peer_connection() call that need the same address reply; distinct = distinct case document."
 )
 ASSUMPTIONS = [
     "every delivery has strictly positive latency (1 ms); requests, deadlines and arrivals live on a 1 ms grid",
@@ -127,7 +127,17 @@ def case_strategy(draw):
                                                   'at': st.integers(0, 20), 'gap': st.integers(0, 4),
                                                   'how': st.sampled_from(['eof', 'reset'])}),
                            max_size=2)) if draw(st.integers(0, 2)) == 0 else []
-    return {'requests': reqs, 'incoming': inc, 'reconn': reconn}
+    # application listeners of MessageReceivedEvent that raise (plain function / coroutine, raising at once or after
+    # 1..3 zero-length waits): a failing listener must not keep a reply from completing the requests it answers
+    listeners = draw(st.lists(st.sampled_from(['sync-raise', 'async-raise', 'async-raise-late', 'async-ok']),
+                              max_size=2)) if draw(st.integers(0, 2)) == 0 else []
+    # other library activity that needs the same server reply: create_peer_connection(user) asks for the address of
+    # 'a'/'b' (GetPeerAddress) and is cancelled a few ticks later; requests of the case waiting for the same reply
+    # are not affected by that
+    connects = draw(st.lists(st.fixed_dictionaries({'user': st.sampled_from(USERS), 'at': st.integers(0, 12),
+                                                    'cancel': st.integers(1, 14)}), max_size=2)) \
+        if draw(st.integers(0, 2)) == 0 else []
+    return {'requests': reqs, 'incoming': inc, 'reconn': reconn, 'listeners': listeners, 'connects': connects}
 
 
 # ---------------------------------------------------------------------------
@@ -190,7 +200,17 @@ def _sanitise(case):
         for e in reconn:
             if m['conn'] == e['conn'] and e['at'] <= m['at'] < e['at'] + e['gap']:
                 m['at'] = e['at'] + e['gap']
-    return reqs, inc, reconn
+    listeners = [x for x in (case.get('listeners') or [])[:3]
+                 if x in ('sync-raise', 'async-raise', 'async-raise-late', 'async-ok')]
+    connects = []
+    for e in (case.get('connects') or [])[:3]:
+        try:
+            connects.append({'user': e['user'] if e.get('user') in USERS else USERS[0],
+                             'at': max(0, min(30, int(e.get('at', 0)))),
+                             'cancel': max(1, min(40, int(e.get('cancel', 1))))})
+        except Exception:
+            continue
+    return reqs, inc, reconn, listeners, connects
 
 
 def _field_ok(matcher, actual):
@@ -211,7 +231,7 @@ def run_case(case) -> CaseResult:
         from checks import c12_cmd
         c12_cmd.run_cmd_case(case, res)
         return res
-    reqs, inc, reconn = _sanitise(case)
+    reqs, inc, reconn, listeners, connects = _sanitise(case)
     if not reqs:
         return res
     from async_timeout import timeout as atimeout
@@ -251,6 +271,34 @@ def run_case(case) -> CaseResult:
                 cb_errors.append((round(loop.time(), 6), type(exc).__name__, repr(message)))
                 raise
         network.on_message_received = guarded
+        from aioslsk.events import MessageReceivedEvent
+        keep = []
+
+        def mk_listener(kind):
+            if kind == 'sync-raise':
+                def l(event):
+                    raise RuntimeError('listener failed')
+            elif kind == 'async-raise':
+                async def l(event):
+                    raise RuntimeError('listener failed')
+            elif kind == 'async-raise-late':
+                async def l(event):
+                    await asyncio.sleep(0)
+                    await asyncio.sleep(0)
+                    raise RuntimeError('listener failed')
+            else:
+                async def l(event):
+                    await asyncio.sleep(0)
+            return l
+        for kind in listeners:
+            l = mk_listener(kind)
+            keep.append(l)          # the bus holds listeners weakly
+            network._event_bus.register(MessageReceivedEvent, l)
+        if connects:
+            # the simulated server stays silent about addresses / connect requests: only the messages of the case
+            # answer anything
+            world.server.handlers[M.GetPeerAddress.Request] = lambda srv, i, m: True
+            world.server.handlers[M.ConnectToPeer.Request] = lambda srv, i, m: True
         await network.initialize()
         network.server_connection.start_reader_task()
         peers = []
@@ -319,6 +367,26 @@ def run_case(case) -> CaseResult:
                 await asyncio.sleep(delay)
             tasks[i].cancel()
         cancels = [asyncio.ensure_future(canceller(i, r)) for i, r in enumerate(reqs) if r['cancel'] is not None]
+
+        async def connector(e):
+            delay = t0 + e['at'] * TICK - loop.time()
+            if delay > 0:
+                await asyncio.sleep(delay)
+            try:
+                conn = await network.create_peer_connection(e['user'], 'P')
+                await conn.disconnect()
+            except BaseException:
+                pass
+
+        async def conn_canceller(task, e):
+            delay = t0 + (e['at'] + e['cancel']) * TICK - loop.time()
+            if delay > 0:
+                await asyncio.sleep(delay)
+            task.cancel()
+        for e in connects:
+            ct = asyncio.ensure_future(connector(e))
+            cancels.append(ct)
+            cancels.append(asyncio.ensure_future(conn_canceller(ct, e)))
 
         # one timer per tick (equal-deadline timers are not FIFO in asyncio): sends stay in list order
         by_tick = {}
@@ -452,7 +520,11 @@ def run_case(case) -> CaseResult:
         break
     glued_match = any(len(idxs) > 1 and sum(1 for i in idxs if any(_matches(r, inc[i]) for r in reqs)) > 1
                       for _, _, idxs in segments)
-    res.nontrivial = bool(multi or glued_match or near or ties)
+    shared_reply = bool(connects) and any(r['cls'] == 'GetPeerAddress' and r['fields'].get('username') in
+                                          [e['user'] for e in connects] for r in reqs)
+    res.nontrivial = bool(multi or glued_match or near or ties or shared_reply)
+    if shared_reply:
+        res.label('request-and-create-peer-connection-need-the-same-reply')
     if multi:
         res.label('one-message-answers-several')
     if glued_match:
@@ -463,12 +535,36 @@ def run_case(case) -> CaseResult:
         res.label('tie')
     for o in outcomes.values():
         res.label('outcome:' + o[0])
+    for x in listeners:
+        res.label('listener:' + x)
+    if connects:
+        res.label('concurrent-create-peer-connection')
     if any(isinstance(m, dict) for r in reqs for m in r['fields'].values()):
         res.label('callable-matcher')
     return res
 
 
+def _shared_reply_cases():
+    """A pending request for the address of a user while create_peer_connection() for the same / the other user is
+    started before or after it and cancelled before or after the server's reply."""
+    for api in APIS:
+        for user in USERS:
+            for cuser in USERS:
+                for req_at, con_at in ((0, 2), (2, 0), (1, 1)):
+                    for cancel in (2, 6, 20):
+                        for reply_at in (None, 5, 12):
+                            inc = [] if reply_at is None else [
+                                {'conn': 'server', 'cls': 'GetPeerAddress', 'values': {'username': user, 'port': 1},
+                                 'at': reply_at, 'glue': False}]
+                            yield {'requests': [{'api': api, 'conn': 'server', 'cls': 'GetPeerAddress',
+                                                 'fields': {'username': user}, 'timeout': 30, 'at': req_at,
+                                                 'cancel': None}],
+                                   'incoming': inc, 'reconn': [], 'listeners': [],
+                                   'connects': [{'user': cuser, 'at': con_at, 'cancel': cancel}]}
+
+
 def run_shard(ctx):
+    ctx.enumerate(_shared_reply_cases())
     n = 500 if ctx.tier == 'quick' else 20000
     ctx.explore(case_strategy(), n)
     from checks import c12_cmd
